@@ -149,7 +149,9 @@ pub fn record(seed: u64, nev: usize, out: &str) {
     let fams = ["Gaussian", "Bernoulli", "QuasiPoisson", "Poisson", "Gamma", "Exponential"];
     for e in 0..nev {
         let fam = fams[e % 6];
-        let n = rng.range(20, 300) as usize;
+        // few, nearly noise-free observations under a strong penalty: alpha ||slopes|| is then of the order of the deviance itself
+        let lownoise = e % 7 == 3 && fams[e % 6] != "Bernoulli";
+        let n = if lownoise { rng.range(8, 24) as usize } else { rng.range(20, 300) as usize };
         let p = rng.range(1, 5) as usize;
         let kind = ["standardised", "polynomial", "indicator"][(e / 6) % 3];
         let mut x = vec![0.0; n * p];
@@ -157,22 +159,25 @@ pub fn record(seed: u64, nev: usize, out: &str) {
             for j in 1..p { x[i * p + j] = match kind { "standardised" => gauss(&mut rng) * 0.8, "polynomial" => t0.powi(j as i32), _ => if (i + j) % (j + 2) == 0 { 1.0 } else { 0.0 } }; } }
         let mut beta: Vec<f64> = (0..p).map(|_| rng.range(-15, 15) as f64 / 10.0).collect();
         // large responses (mean of order 50..150): the log-link iteration starts far from the solution
-        let large = (e / 18) % 3 == 2;
+        let large = (e / 18) % 3 == 2 && !lownoise;
         // tiny responses for the scale families (means around 1e-6: variance mu^2 far below any absolute floor)
-        let tiny = (e / 18) % 3 == 1 && (fam == "Gamma" || fam == "Exponential") && (e / 54) % 2 == 0;
+        let tiny = !lownoise && (e / 18) % 3 == 1 && (fam == "Gamma" || fam == "Exponential") && (e / 54) % 2 == 0;
         if tiny { beta[0] = -14.0 + rng.below(10) as f64 / 10.0; for j in 1..p { beta[j] *= 0.25; } }
         // responses so large that the start value mean(y) overflows the log link: the fit must end in Err or in a finite, correct answer
-        let huge = (e / 18) % 3 == 0 && (e / 54) % 3 == 1 && fam != "Gaussian" && fam != "Bernoulli";
+        let huge = !lownoise && (e / 18) % 3 == 0 && (e / 54) % 3 == 1 && fam != "Gaussian" && fam != "Bernoulli";
         if huge { beta[0] = 6.8; for j in 1..p { beta[j] *= 0.1; } }
         if large { beta[0] = match fam { "Gaussian" => 80.0, "Bernoulli" => beta[0], _ => 4.0 + rng.below(8) as f64 / 10.0 }; for j in 1..p { beta[j] *= 0.25; } }
         let history: u8 = ((e / 6) % 3) as u8;
         let refit = history != 0;
         let use_w = rng.below(2) == 0; let use_o = rng.below(3) == 0;
-        let alpha = [0.0, 0.0, 0.1, 1.0, 10.0][rng.below(5) as usize];
+        let alpha = if lownoise { [1.0, 10.0][rng.below(2) as usize] } else { [0.0, 0.0, 0.1, 1.0, 10.0][rng.below(5) as usize] };
         let w: Vec<f64> = (0..n).map(|_| if use_w { 0.5 + rng.below(4) as f64 * 0.5 } else { 1.0 }).collect();
         let o: Vec<f64> = (0..n).map(|_| if use_o { (rng.below(5) as f64 - 2.0) * 0.2 } else { 0.0 }).collect();
         let eta: Vec<f64> = (0..n).map(|i| (0..p).map(|j| x[i * p + j] * beta[j]).sum::<f64>() + o[i]).collect();
         let y: Vec<f64> = eta.iter().map(|h| match fam {
+            "Gaussian" if lownoise => h + 0.05 * gauss(&mut rng),
+            "Poisson" | "QuasiPoisson" if lownoise => (h.exp() * (1.0 + 0.03 * gauss(&mut rng))).round().max(0.0),
+            "Gamma" | "Exponential" if lownoise => h.exp() * (1.0 + 0.05 * gauss(&mut rng)).max(0.5),
             "Gaussian" => h + gauss(&mut rng),
             "Bernoulli" => if unif(&mut rng) < 1.0 / (1.0 + (-h).exp()) { 1.0 } else { 0.0 },
             "Poisson" | "QuasiPoisson" => { let mu = h.exp(); if mu > 30.0 { (mu + mu.sqrt() * gauss(&mut rng)).round().max(0.0) } else { let l = (-mu).exp(); let mut k = 0.0; let mut pr = unif(&mut rng); while pr > l && k < 500.0 { k += 1.0; pr *= unif(&mut rng); } k } }
@@ -180,7 +185,7 @@ pub fn record(seed: u64, nev: usize, out: &str) {
         }).collect();
         let tol = [1e-8, 1e-11, 1e-14][rng.below(3) as usize];
         let r = fit_hh(fam, &x, &y, if use_w { Some(&w[..]) } else { None }, if use_o { Some(&o[..]) } else { None }, alpha, tol, 200, history);
-        let base = json!({"family": fam, "design": kind, "scale": if huge { "huge-mean" } else if large { "large-mean" } else if tiny { "tiny-mean" } else { "unit" }, "history": if history == 1 { "refit" } else if history == 2 { "retry-after-failed-fit" } else { "fresh" }, "n": n, "p": p, "weights": use_w, "offset": use_o, "alpha_class": if alpha == 0.0 { 0 } else { 1 }, "tol_log10": tol.log10().round() as i64});
+        let base = json!({"family": fam, "design": kind, "scale": if lownoise { "low-noise strong-penalty" } else if huge { "huge-mean" } else if large { "large-mean" } else if tiny { "tiny-mean" } else { "unit" }, "history": if history == 1 { "refit" } else if history == 2 { "retry-after-failed-fit" } else { "fresh" }, "n": n, "p": p, "weights": use_w, "offset": use_o, "alpha_class": if alpha == 0.0 { 0 } else { 1 }, "tol_log10": tol.log10().round() as i64});
         let mut ev = base.as_object().unwrap().clone();
         match r {
             Some(Ok(ft)) => {
